@@ -42,19 +42,24 @@ def job(programs, schedule, classes, canary=True, record_hot=False):
     return j
 
 
-def references(z, A, B, classes):
+def references(z, A, B, classes, C=None):
     soloA = z.run(job([A], {'kind': 'none'}, classes, canary=False, record_hot=True))
     soloB = z.run(job([B], {'kind': 'none'}, classes, canary=False))
-    seq = z.run(job([A, B], {'kind': 'none'}, classes))
+    progs = [A, B] + ([C] if C is not None else [])
+    seq = z.run(job(progs, {'kind': 'none'}, classes))
+    if C is not None:
+        soloC = z.run(job([C], {'kind': 'none'}, classes, canary=False))
+        return soloA, soloB, seq, soloC
     return soloA, soloB, seq
 
 
-def judge(res, soloA, soloB, seq):
+def judge(res, soloA, soloB, seq, soloC=None):
     """-> list of (clause, detail)"""
     out = []
     if res.get('failed'):
         return [('harness', {'failed': res['failed']})]
-    for name, solo in (('T0', soloA), ('T1', soloB)):
+    trio = (('T0', soloA), ('T1', soloB)) + ((('T2', soloC),) if soloC is not None else ())
+    for name, solo in trio:
         a, b = res['threads'][name], solo['threads']['T0']
         if a != b:
             k = 0
@@ -76,16 +81,19 @@ def canon(c, d):
 
 
 def work(args):
-    pair_id, A, B, classes, schedules, baseline, known_clauses = args
+    pair_id, A, B, classes, schedules, baseline, known_clauses = args[:7]
+    C = args[7] if len(args) > 7 else None
     z = runner.zygote(REPO)
-    soloA, soloB, seq = references(z, A, B, classes)
+    refs = references(z, A, B, classes, C)
+    soloA, soloB, seq = refs[:3]
+    progs = [A, B] + ([C] if C is not None else [])
     out = {'runs': 0, 'switch_sites': set(), 'viol': [], 'known': {}, 'switches': 0, 'lines': 0, 'interleavings': set(),
            'fired': 0, 'errors': []}
     base_refs = None
     reported = {}
     for sch in schedules:
         try:
-            r = z.run(job([A, B], sch, classes))
+            r = z.run(job(progs, sch, classes))
         except runner.HarnessError as e:
             out['errors'].append(str(e)[:500])
             runner.close_all()
@@ -99,7 +107,7 @@ def work(args):
             out['interleavings'].add(hashlib.md5(json.dumps(r['switches']).encode()).hexdigest()[:12])
         for s in r['switches']:
             out['switch_sites'].add('%s:%s' % (s[3], s[4]))
-        vs = judge(r, soloA, soloB, seq)
+        vs = judge(r, *refs)
         for clause, detail in vs:
             if clause == 'harness':
                 out['errors'].append(json.dumps(detail))
@@ -108,8 +116,8 @@ def work(args):
             if baseline and clause in known_clauses:
                 zb = runner.zygote(baseline)
                 if base_refs is None:
-                    base_refs = references(zb, A, B, classes)
-                rb = zb.run(job([A, B], sch, classes))
+                    base_refs = references(zb, A, B, classes, C)
+                rb = zb.run(job(progs, sch, classes))
                 vb = judge(rb, *base_refs)
                 is_known = any(canon(c2, d2) == canon(clause, detail) for c2, d2 in vb)
             if is_known:
@@ -117,7 +125,7 @@ def work(args):
             else:
                 if reported.get(clause, 0) < 1:
                     reported[clause] = reported.get(clause, 0) + 1
-                    out['viol'].append(minimise_and_write(z, pair_id, A, B, classes, sch, r, clause, detail))
+                    out['viol'].append(minimise_and_write(z, pair_id, A, B, classes, sch, r, clause, detail, C))
                 else:
                     out['viol_more'] = out.get('viol_more', 0) + 1
     runner.close_all()
@@ -127,7 +135,19 @@ def work(args):
     return out
 
 
-def minimise_and_write(z, pair_id, A, B, classes, sch, r, clause, detail):
+def minimise_and_write(z, pair_id, A, B, classes, sch, r, clause, detail, C=None):
+    if C is not None:
+        # three threads: keep the schedule as recorded (explicit switch list), no program minimisation
+        sw = [[s[0], s[1], s[2]] for s in r['switches']]
+        rep = {'property': 'C20', 'clause': clause, 'mode': 'threads', 'pair': pair_id, 'programs': [A, B, C],
+               'schedule': {'kind': 'list', 'switches': sw}, 'classes': classes, 'original_schedule': sch,
+               'switch_points': r['switches'], 'observation': {'clause': clause, 'detail': detail}, 'dsim_version': 1}
+        os.makedirs(REPLAYS, exist_ok=True)
+        name = 'C20-%s.json' % hashlib.sha256(json.dumps([clause, A, B, C, sw], sort_keys=True, default=str).encode()).hexdigest()[:16]
+        path = os.path.join(REPLAYS, name)
+        with open(path, 'w') as f:
+            json.dump(rep, f, indent=1, default=str)
+        return {'clause': clause, 'replay': path, 'detail': detail, 'len': len(A) + len(B) + len(C), 'schedule': rep['schedule']}
     # explicit switch list: replay needs no PRNG
     sw = [[s[0], s[1], s[2]] for s in r['switches']]
     sched = {'kind': 'list', 'switches': sw}
@@ -168,13 +188,15 @@ def minimise_and_write(z, pair_id, A, B, classes, sch, r, clause, detail):
 
 def replay(rep):
     z = runner.zygote(REPO)
-    A, B = rep['programs']
-    sA, sB, sq = references(z, A, B, rep['classes'])
-    r = z.run(job([A, B], rep['schedule'], rep['classes']))
-    r2 = z.run(job([A, B], rep['schedule'], rep['classes']))
+    progs = rep['programs']
+    A, B = progs[0], progs[1]
+    C = progs[2] if len(progs) > 2 else None
+    refs = references(z, A, B, rep['classes'], C)
+    r = z.run(job(progs, rep['schedule'], rep['classes']))
+    r2 = z.run(job(progs, rep['schedule'], rep['classes']))
     print('switch points:', json.dumps(r['switches']))
     print('deterministic (two executions, same digest):', r['digest'] == r2['digest'])
-    vs = judge(r, sA, sB, sq)
+    vs = judge(r, *refs)
     runner.close_all()
     for c, d in vs:
         if c == rep['clause']:
@@ -271,6 +293,20 @@ def run(prop, tier, seed):
         chunk = max(20, len(scheds) // (NPROC * 2) or 1)
         for s in range(0, len(scheds), chunk):
             tasks.append((i, A, B, classes, scheds[s:s + chunk], baseline, known_clauses))
+    # three threads (thorough): seeded multi-switch schedules over triples built from the pairs
+    ntri = P.cfg[tier].get('triples', 0)
+    for t in range(ntri):
+        (i, A, B, classes, ea, eb) = pairs[t % len(pairs)]
+        (_i2, A2, _B2, classes2, ea2, _eb2) = pairs[(t + 1) % len(pairs)]
+        C = [dict(op, doc=('c' + str(op['doc'])) if 'doc' in op else None) if False else dict(op) for op in A2]
+        scheds = [{'kind': 'pct', 'seed': hash64(seed, 'C20', 'tri', t, j), 'depth': 2 + j % 4, 'p': 0.0006, 'p_hot': 0.03}
+                  for j in range(P.cfg[tier].get('pct_per_triple', 200))]
+        per_pair['triple%d' % t] = {'elements': [ea, eb, ea2], 'threads': 3, 'schedules': len(scheds)}
+        total_sched += len(scheds)
+        cl3 = sorted(set(classes) | set(classes2))
+        chunk = max(20, len(scheds) // NPROC or 1)
+        for s0 in range(0, len(scheds), chunk):
+            tasks.append((100 + t, A, B, cl3, scheds[s0:s0 + chunk], baseline, known_clauses, C))
     runner.close_all()
     agg = {'runs': 0, 'switch_sites': set(), 'viol': [], 'known': {}, 'switches': 0, 'lines': 0, 'interleavings': set(),
            'fired': 0, 'errors': []}
